@@ -20,6 +20,8 @@ def run_one(prop, repo, out):
     env = dict(os.environ, VERIF_REPO=repo, VERIF_OUT_DIR=out)
     p = subprocess.run(["/venv/bin/python", "-m", "sa.cli", "check", prop], cwd=VERIF, env=env, capture_output=True, text=True)
     lines = [l for l in (p.stdout + p.stderr).splitlines() if l.startswith(("  R-", "ANALYSIS-ERROR"))]
+    if p.returncode != 0 and not lines:
+        lines = ["(no report line) " + " | ".join((p.stdout + p.stderr).strip().splitlines()[-3:])]
     return prop, p.returncode, lines
 
 
